@@ -134,4 +134,9 @@ func C06(c *vlib.Ctx) {
 	c06Table(c)
 	c06Random(c)
 	c06HTTP(c)
+	// an egress-policy denial raised at a redirect hop is still a policy denial:
+	// dead-lettered policy_denied after one attempt, not retried to max_retries
+	for _, be := range []string{"memory", "sqlite"} {
+		c16DispatcherRedirects(c, be)
+	}
 }
